@@ -22,7 +22,7 @@ from . import _trees as T
 from .c09 import _aggregate
 
 TIERS = {
-    "quick": {"trees": 2500, "depth": 3, "nrand": 10, "chunk": 10},
+    "quick": {"trees": 1500, "depth": 3, "nrand": 10, "chunk": 10},
     "thorough": {"trees": 30000, "depth": 4, "nrand": 18, "chunk": 50},
 }
 CASE_SECONDS = 5.0
@@ -63,7 +63,7 @@ def _work(job) -> Dict[str, Any]:
         rng, d = _tree_for(seed, idx, cfg["depth"])
         sm = T.smin(d)
         nontrivial = T.node_count(d) >= 2
-        sig = T.signature(d)
+        sig = T.sig_key(d)
         out["trees"] += 1
         out["nontrivial_trees"] += int(nontrivial)
         ok, r = T.guarded(lambda: T.build(d), CASE_SECONDS)
@@ -94,30 +94,20 @@ def _minimise(f: Dict[str, Any], cheap: bool = False) -> Dict[str, Any]:
     check = f["check"]
     want = _signature_of_error(f["observed"])
 
-    def probe(desc: T.Desc, w: int):
-        ok, r = T.guarded(lambda: T.build(desc), CASE_SECONDS)
-        if not ok:
-            return None
+    def probe(desc: T.Desc, r, w: int):
         for got in case_failures(desc, r, w):
             if got[0] == check and _signature_of_error(got[2]) == want:
                 return got
         return None
 
-    def fails(desc: T.Desc, hint: int) -> Optional[int]:
-        sm = T.smin(desc)
-        for w in [hint] + [x for x in (1, 2, 3, sm - 1, sm, sm + 1, sm + 5, 40) if x >= 1 and x != hint]:
-            if probe(desc, w) is not None:
-                return w
-        return None
-
-    timeout_case = "timeout" in str(f["observed"])
-    d, w = (f["desc"], f["w"]) if (cheap or timeout_case) else T.minimise(f["desc"], f["w"], fails, max_evals=1500, max_seconds=5.0)
-    got = probe(d, w) or (check, f["expected"], f["observed"], f["what"])
-    for w2 in ([] if (cheap or timeout_case) else range(1, w)):  # smallest failing width of the minimal tree
-        g2 = probe(d, w2)
-        if g2 is not None:
-            w, got = w2, g2
-            break
+    timeout_case = "timeout" in str(f["observed"])  # never re-run a hanging case again and again
+    if cheap or timeout_case:
+        d, w = f["desc"], f["w"]
+        got = (check, f["expected"], f["observed"], f["what"])
+    else:
+        d, w = T.minimise(f["desc"], f["w"], lambda desc, r, x: probe(desc, r, x) is not None, lambda desc: 1,
+                          extra_widths=lambda desc: [2, 3, 40])
+        got = probe(d, T.build(d), w) or (check, f["expected"], f["observed"], f["what"])
     _, expected, observed, what = got
     return {"check": check, "what": what, "input_key": T.key_of(d, w, _signature_of_error(observed).split(" ")[0] + ":"),
             "input": {"tree": d, "width": w, "smin": T.smin(d),
